@@ -28,6 +28,12 @@ thread_local! {
     static CORRUPT: Cell<u64> = const { Cell::new(0) };
     /// a `&mut T` returned by `push_mut` / `insert_mut` did not point at the slot the value went into
     static BADREF: Cell<u64> = const { Cell::new(0) };
+    /// the arguments every callback of the operation in progress was handed (ids; `NOARG` for a unary callback)
+    static ARGS: RefCell<Vec<(u64, u64)>> = const { RefCell::new(Vec::new()) };
+    /// the same for the `std::vec::Vec` twin
+    static STD_ARGS: RefCell<Vec<(u64, u64)>> = const { RefCell::new(Vec::new()) };
+    /// answers a SEMANTIC callback gave (they become the oracle text of the line the model replays)
+    static OBSERVED: RefCell<Vec<u64>> = const { RefCell::new(Vec::new()) };
     // zero-sized elements: only counts exist
     static ZCREATED: Cell<u64> = const { Cell::new(0) };
     static ZDROPPED: Cell<u64> = const { Cell::new(0) };
@@ -79,6 +85,33 @@ pub fn clear_stash() {
     drop(v);
     let z: Vec<Z> = ZSTASH.with(|s| std::mem::take(&mut *s.borrow_mut()));
     drop(z);
+}
+pub const NOARG: u64 = u64::MAX - 7;
+pub fn log_args(a: u64, b: u64) {
+    ARGS.with(|l| l.borrow_mut().push((a, b)));
+}
+pub fn take_args() -> Vec<(u64, u64)> {
+    ARGS.with(|l| std::mem::take(&mut *l.borrow_mut()))
+}
+pub fn std_log_args(a: u64, b: u64) {
+    STD_ARGS.with(|l| l.borrow_mut().push((a, b)));
+}
+pub fn take_std_args() -> Vec<(u64, u64)> {
+    STD_ARGS.with(|l| std::mem::take(&mut *l.borrow_mut()))
+}
+pub fn take_observed() -> Vec<u64> {
+    OBSERVED.with(|l| std::mem::take(&mut *l.borrow_mut()))
+}
+pub fn args_text(a: &[(u64, u64)]) -> String {
+    if a.is_empty() {
+        "-".to_string()
+    } else {
+        a.iter().map(|(x, y)| if *y == NOARG { x.to_string() } else { format!("{x}:{y}") }).collect::<Vec<_>>().join(",")
+    }
+}
+/// the non-transitive "same bucket" of the semantic route: ids at most 1 apart
+pub fn near_ids(a: u64, b: u64) -> bool {
+    a.abs_diff(b) <= 1
 }
 pub fn bad_refs() -> u64 {
     BADREF.with(|c| c.replace(0))
@@ -132,20 +165,30 @@ pub trait Elem: Sized + Clone + PartialEq + 'static {
     fn ident(&self) -> u64;
     fn stash(self);
     fn pred(e: &mut Self) -> bool {
-        e.ident();
+        log_args(e.ident(), NOARG);
         cb_value() != 0
     }
     fn pred_ref(e: &Self) -> bool {
-        e.ident();
+        log_args(e.ident(), NOARG);
         cb_value() != 0
     }
     fn same(a: &mut Self, b: &mut Self) -> bool {
-        a.ident();
-        b.ident();
+        log_args(a.ident(), b.ident());
         cb_value() != 0
+    }
+    /// a `same_bucket` that LOOKS at what it is handed (non-transitive: ids at most 1 apart); what it answered is
+    /// recorded and becomes the oracle of the line the model replays
+    fn same_sem(a: &mut Self, b: &mut Self) -> bool {
+        let (x, y) = (a.ident(), b.ident());
+        log_args(x, y);
+        let r = near_ids(x, y);
+        OBSERVED.with(|l| l.borrow_mut().push(u64::from(r)));
+        USED.with(|u| u.set(u.get() + 1));
+        r
     }
     /// closure `T -> T` of the mapping operations: the argument is kept (stashed), the result is new
     fn map_cb(e: Self) -> Self {
+        log_args(e.ident(), NOARG);
         e.stash();
         Self::make(cb_value())
     }
@@ -154,7 +197,7 @@ pub trait Elem: Sized + Clone + PartialEq + 'static {
     }
     /// key function of `dedup_by_key`
     fn key_cb(e: &mut Self) -> u64 {
-        e.ident();
+        log_args(e.ident(), NOARG);
         cb_value()
     }
 }
@@ -189,8 +232,7 @@ impl Elem for E {
 /// `==` is what the oracle says (like `same`): `dedup()` is `dedup_by(|a, b| a == b)`
 impl PartialEq for E {
     fn eq(&self, other: &E) -> bool {
-        self.ident();
-        other.ident();
+        log_args(self.ident(), other.ident());
         cb_value() != 0
     }
 }
